@@ -81,7 +81,25 @@ func (c *c02Case) val() string {
 
 // device-tree dump of one side: every edge into every known node
 func c02Dump(nc *nats.Conn, nodes []string) ([]sView, error) {
+	// the whole device tree: the listed nodes and everything found below the device (e.g. the default admin
+	// user created with the downstream root), so that every stored hash can be recomputed from the dump
 	ids := append([]string{c02Down}, nodes...)
+	seen := map[string]bool{}
+	for _, id := range ids {
+		seen[id] = true
+	}
+	for i := 0; i < len(ids) && len(ids) < 200; i++ {
+		kids, err := client.GetNodes(nc, ids[i], "all", "", true)
+		if err != nil {
+			continue // a listed node that does not exist on this side yet
+		}
+		for _, k := range kids {
+			if !seen[k.ID] {
+				seen[k.ID] = true
+				ids = append(ids, k.ID)
+			}
+		}
+	}
 	views, _, err := storeDump(nc, ids)
 	return views, err
 }
@@ -363,6 +381,11 @@ func c02GenCase(r *rand.Rand, id int, allowDelete bool) *c02Case {
 	if allowDelete && r.Intn(3) == 0 {
 		kind = []string{"outage-delete-down", "outage-delete-up"}[r.Intn(2)]
 	}
+	if allowDelete && r.Intn(12) == 0 {
+		// the same point (same instant) written to two different nodes on opposite sides: the XOR of point
+		// CRCs, which do not cover the node id, gives both sides the same hashes (finding equal-hash-different-content)
+		kind = "outage-twin-points"
+	}
 	c.Kind = kind
 	if kind == "up-only" {
 		ph2 := c02Phase{Name: "up"}
@@ -386,6 +409,18 @@ func c02GenCase(r *rand.Rand, id int, allowDelete bool) *c02Case {
 		for i := 0; i < n; i++ {
 			side := c02Side(r)
 			switch kind {
+			case "outage-twin-points":
+				if i == 0 {
+					all := append([]string{c02Down}, g.nodes...)
+					a := r.Intn(len(all))
+					b := (a + 1 + r.Intn(len(all)-1)) % len(all)
+					p := sPoint{Type: "value", Key: []string{"", "7"}[r.Intn(2)], Time: g.tick(), VBits: math.Float64bits(float64(r.Intn(100)))}
+					down.Ops = append(down.Ops, c02Op{"D", sOp{Kind: "np", Node: all[a], Points: []sPoint{p}}},
+						c02Op{"U", sOp{Kind: "np", Node: all[b], Points: []sPoint{p}}})
+				} else if r.Intn(2) == 0 {
+					// further changes elsewhere are still synchronised when they are visible through the hashes
+					down.Ops = append(down.Ops, g.points(side))
+				}
 			case "outage-points":
 				down.Ops = append(down.Ops, g.points(side))
 			case "outage-create":
@@ -517,6 +552,11 @@ func runC02(cfg *config) error {
 		cs.count("kind:" + c.Kind)
 		last := c.Phases[len(c.Phases)-1]
 		cs.count(fmt.Sprintf("converged:%v", last.Converged))
+		if c.Err == "" && !last.Converged {
+			// whether the remaining difference is one that no hash comparison can see is decided by the model
+			// (blind_only); only then can this key match a recorded finding
+			c.Key = "equal-hash-different-content"
+		}
 		nops := 0
 		for _, ph := range c.Phases {
 			nops += len(ph.Ops)
